@@ -61,7 +61,9 @@ CHECKS = {
    "Real elasticsearch/http/splunk/loki/gelf/file/kafka outputs driven through Out -> Batcher -> out with hostile field values, child/parent events, buffer reuse across batches, retries and 413 split patterns; each payload must parse to exactly the batch's deliverable events in order.",
    "strict JSON reference parser of the harness; the Kafka client is replaced by a recorder through the verif accessor", "DESIGN.md §3 C19"), "C13": ("exploration", "runtime monitoring: crash detection (child processes with on-disk event index) and output validity (encoding/json) for every action plugin under hostile events, inside real single-action and chained pipelines",
    "Every registered action plus k8s-multiline, 5-16 accepted configurations each, driven with directed and seeded hostile events (absent/null/bool/huge number/float/empty/long/invalid UTF-8/object/array values of the configured fields), stateful ones with time-outs; the process must survive and every output must be valid JSON that re-parses.",
-   "a configuration rejected by the plugin's own validation is discarded; encoding/json decides validity", "DESIGN.md §3 C13"),
+   "a configuration rejected by the plugin's own validation is discarded; encoding/json decides validity", "DESIGN.md §3 C13"), "C03": ("fault_enumeration", "runtime monitoring with crash injection: the real file.d binary (build tag verif) is run, killed at enumerated crash points (hook-armed SIGKILL at commit/save/ack points, external kill -9) and restarted with its offsets file; set difference of written vs delivered line ids",
+   "Scenarios = history (appends while down, rename rotation, partial lines, 1-3 streams per file, join/discard chains, truncation matrix) x config (persistence mode, workers, buffers, batch settings) x kill plan (every crash point in both persistence modes, drawn external kills); idle is decided from file.d's own maintenance ticks; every complete line must be in the output of one of the two runs.",
+   "process kill stands for a crash; the file output's target file is the delivery record; the README's documented truncation caveat is outside the scenarios", "DESIGN.md §3 C03"),
 }
 
 PENDING_REASON = "check not built yet in this round (runtime-monitoring design in DESIGN.md §3); not claimed until its monitor exists and is silent on the unchanged tree"
